@@ -4,6 +4,8 @@
 package main
 
 import (
+	"go/parser"
+	"go/ast"
 	"encoding/json"
 	"fmt"
 	"go/token"
@@ -68,16 +70,54 @@ func loadProgram(repo string, goarch string) (*Program, error) {
 	}
 	// one normalisation (normalize.go): a request-loop body outlined into a helper is inlined back
 	normaliseNote = ""
+	rangeNote = ""
 	{
 		byPath := map[string]*packages.Package{}
 		packages.Visit(pkgs, nil, func(pk *packages.Package) { byPath[pk.PkgPath] = pk })
+		// range-over-int statements are rewritten to three-clause loops (normalize_range.go)
+		var rangeSites map[string]map[int]bool
+		if sites := rangeIntSites(byPath); len(sites) > 0 {
+			rangeSites = sites
+			nrw := 0
+			cfgR := *cfg
+			cfgR.ParseFile = func(fset *token.FileSet, filename string, src []byte) (*ast.File, error) {
+				f, err := parser.ParseFile(fset, filename, src, parser.AllErrors|parser.ParseComments)
+				if err != nil || sites[filename] == nil {
+					return f, err
+				}
+				nrw += rewriteRangeInt(fset, f, sites[filename])
+				return f, nil
+			}
+			pkgsR, errR := packages.Load(&cfgR, "./...")
+			nerr := 0
+			if errR == nil {
+				packages.Visit(pkgsR, nil, func(pk *packages.Package) { nerr += len(pk.Errors) })
+			}
+			if errR == nil && nerr == 0 && nrw > 0 {
+				pkgs = pkgsR
+				cfg = &cfgR
+				rangeNote = fmt.Sprintf("%d range-over-int statements were rewritten to three-clause loops before the analysis (normalize_range.go)", nrw)
+				byPath = map[string]*packages.Package{}
+				packages.Visit(pkgs, nil, func(pk *packages.Package) { byPath[pk.PkgPath] = pk })
+			} else if nrw > 0 || nerr > 0 {
+				rangeNote = fmt.Sprintf("range-over-int statements could not be rewritten (%d errors): analysed as written", nerr)
+			}
+			debugNormalise("%s", rangeNote)
+		}
 		if plan := findOutlinedLoopBody(byPath); plan != nil {
 			if plan.Why != "" {
 				normaliseNote = plan.Why
 			} else {
 				failed := ""
 				cfg2 := *cfg
-				cfg2.ParseFile = normalisingParseFile(plan, &failed)
+				inner := normalisingParseFile(plan, &failed)
+				cfg2.ParseFile = func(fset *token.FileSet, filename string, src []byte) (*ast.File, error) {
+					f, err := inner(fset, filename, src)
+					if err == nil && f != nil && rangeSites[filename] != nil && rangeNote != "" {
+						rewriteRangeInt(fset, f, rangeSites[filename])
+					}
+					return f, err
+				}
 				pkgs2, err2 := packages.Load(&cfg2, "./...")
 				nerr := 0
 				if err2 == nil {
@@ -127,6 +167,7 @@ func loadProgram(repo string, goarch string) (*Program, error) {
 			return nil, fmt.Errorf("package %s not loaded", need)
 		}
 	}
+	theProgram = p
 	computeFieldRoles(p)
 	computeCursorParams(p)
 	computePassThroughWriters(p)
@@ -358,8 +399,16 @@ type Ctx struct {
 }
 
 func newCtx(p *Program, prop, tier string) *Ctx {
-	return &Ctx{P: p, Prop: prop, Tier: tier, Counts: map[string]int{}, Floors: map[string]int{},
+	c := &Ctx{P: p, Prop: prop, Tier: tier, Counts: map[string]int{}, Floors: map[string]int{},
 		Rules: map[string]string{}, FuncsSet: map[string]bool{}, seen: map[string]bool{}}
+	// what the loader rewrote before the analysis: the verdicts are about the rewritten program
+	if normaliseNote != "" {
+		c.note("loader: %s", normaliseNote)
+	}
+	if rangeNote != "" {
+		c.note("loader: %s", rangeNote)
+	}
+	return c
 }
 
 func (c *Ctx) rule(id, text string) {
@@ -509,3 +558,6 @@ func sortedKeys[V any](m map[string]V) []string {
 }
 
 var startTime = time.Now()
+
+// rangeNote: what normalize_range.go did in this load (reported in the evidence notes).
+var rangeNote string
